@@ -84,6 +84,9 @@ func (b Block) String() string {
 	return s[:len(s)-1]
 }
 
+// PanicCode marks a call that panicked outside any recover of the application.
+const PanicCode = 0xDEAD
+
 // TxResult is the consensus-relevant part of a DeliverTx/CheckTx response.
 type TxResult struct {
 	Code      uint32
@@ -225,6 +228,7 @@ type Driver struct {
 	InitVals []abci.ValidatorUpdate
 	RuleErrs []string // Tendermint update-rule violations seen so far
 	entropy  int64
+	lastTx   []byte
 	Dead     bool // a Begin/End/Commit panicked: the node would have halted
 	NumKeys  int
 }
@@ -255,6 +259,17 @@ func (d *Driver) nextEntropy() int64 { d.entropy++; return d.Height*100000 + d.e
 func (d *Driver) BuildTx(t TxSpec) []byte {
 	if t.Entropy == 0 && t.Msg != "raw" {
 		t.Entropy = d.nextEntropy()
+	}
+	if t.Msg == "change_param" {
+		switch t.Val {
+		case "@same": // the bytes currently stored for that parameter
+			t.Val = string(d.App.Store().GetKVStore(sdk.ParamsKey).Get([]byte(t.Key)))
+			if t.Val == "" {
+				t.Val = `"1"`
+			}
+		case "@empty":
+			t.Val = ""
+		}
 	}
 	return Build(t)
 }
@@ -419,11 +434,24 @@ func (d *Driver) RunBlock(b Block, hk *Hooks) BlockResult {
 	return res
 }
 
-func (d *Driver) runEvent(e Event, h abci.Header) *TxResult {
+func (d *Driver) runEvent(e Event, h abci.Header) (out *TxResult) {
+	// DeliverTx/CheckTx/Query run outside any recover in the application: a panic there would take
+	// the process down. The driver turns it into an observable result (Code 0xDEAD, Log = panic).
+	defer func() {
+		if r := recover(); r != nil {
+			if e.Kind == "tx" && d.lastTx != nil {
+				d.pending = append(d.pending, d.lastTx)
+			}
+			out = &TxResult{Code: PanicCode, Log: fmt.Sprintf("PANIC: %v", r)}
+		}
+	}()
+	d.lastTx = nil
 	switch e.Kind {
 	case "tx":
 		bz := d.BuildTx(*e.Tx)
+		d.lastTx = bz
 		r := d.App.DeliverTx(abci.RequestDeliverTx{Tx: bz})
+		d.lastTx = nil
 		d.pending = append(d.pending, bz)
 		return &TxResult{Code: r.Code, Codespace: r.Codespace, Data: r.Data, Events: r.Events, Log: r.Log}
 	case "check":
